@@ -295,6 +295,7 @@ type runner struct {
 	catchAt  map[int]bool // JS frames whose catch ran
 	throwLn  map[int]int  // line of the (re)throw statement of JS frame i
 	thLine   int
+	forofLn  map[int]bool // lines of the for-of statements that drive a generator body
 }
 
 func (r *runner) fail(s string) {
@@ -642,7 +643,7 @@ var staleInts, staleSO = makeStale()
 func runCase(c0 Case) vh.Record {
 	c := normalize(c0)
 	vm := goja.New()
-	r := &runner{vm: vm, c: c, natSeen: map[int]bool{}, catchAt: map[int]bool{}, throwLn: map[int]int{}}
+	r := &runner{vm: vm, c: c, natSeen: map[int]bool{}, catchAt: map[int]bool{}, throwLn: map[int]int{}, forofLn: map[int]bool{}}
 	r.staleInt, r.staleSO = staleInts, staleSO
 	r.frames = append(append([]Frame{}, c.Ops...), c.Post...)
 	n := len(r.frames)
@@ -738,7 +739,9 @@ func runCase(c0 Case) vh.Record {
 		if f.Catch != "" || f.Fin {
 			emit("try {")
 		}
-		emit(invoke)
+		if ln := emit(invoke); f.Body == "gen-forof" && !(c.HasPost && i == len(c.Ops)-1) {
+			r.forofLn[ln] = true
+		}
 		if f.Catch != "" {
 			emit(fmt.Sprintf("} catch (e) { LOGC(%d, e);", i))
 			switch f.Catch {
@@ -949,6 +952,10 @@ func runCase(c0 Case) vh.Record {
 			} else if p := st[0].Position(); p.Line != want {
 				posOK = false
 				posNote = fmt.Sprintf("top frame at line %d col %d (%s), throw site line %d", p.Line, p.Column, st[0].FuncName(), want)
+				if r.forofLn[p.Line] {
+					// the top frame is a for-of statement whose iterator's next() threw
+					posNote = "AT-FOROF-STATEMENT " + posNote
+				}
 			}
 		}
 	}
@@ -986,6 +993,13 @@ func runCase(c0 Case) vh.Record {
 			if f.FA != "" {
 				ts = append(ts, "js:finally-"+f.FA)
 			}
+		}
+		if f.K == "js" && f.Body != "" {
+			st := "catch"
+			if f.Stale == "finally" {
+				st = "finally"
+			}
+			ts = append(ts, "js:body="+f.Body+",stale-"+st)
 		}
 		for _, t := range ts {
 			if !seenTag[t] {
@@ -1087,13 +1101,13 @@ func genFrames(r *vh.Rng, n int, startJS bool) []Frame {
 					f.FA = "return"
 				}
 			}
-			fs = append(fs, f)
 			if r.Chance(22) {
 				f.Body = []string{"gen-next", "gen-forof"}[r.Intn(2)]
 				if r.Chance(35) {
 					f.Stale = "finally"
 				}
 			}
+			fs = append(fs, f)
 			js = r.Chance(12)
 		} else {
 			f := Frame{K: "nat", En: entries[r.Intn(len(entries))], Cb: callbacks[r.Intn(len(callbacks))], S: 1 + r.Intn(3)}
